@@ -47,6 +47,29 @@ def main():
             sys.stderr.write(tb)
             print('harness error in %s: %s' % (a.pid, tb.strip().split('\n')[-1]))
             sys.exit(2)
+        # a broken obligation or correspondence without a failing input: before reporting `no-failing-input-found`,
+        # search further (same generators, other seeds; dynamic part only). Costs nothing on a tree where everything checks.
+        from harness.core import load_known
+        open_sigs = {k['signature'] for k in load_known().get('open', []) if k.get('property') == a.pid}
+        unlisted = lambda c: [f for f in c.spec_failures if f['sig'] not in open_sigs]
+        if (ctx.proof_failures or ctx.corr_failures) and not unlisted(ctx) and os.environ.get('VERIF_EXTENDED_SEARCH', '1') != '0':
+            tried = []
+            for k in (1, 2, 3):
+                c2 = Ctx(a.pid, a.tier, seed + 7919 * k)
+                c2.search_only = True
+                try:
+                    mod.run(c2)
+                except Exception:
+                    break
+                tried.append(c2.seed)
+                ctx.evaluations += c2.evaluations
+                ctx.nontrivial |= c2.nontrivial
+                if unlisted(c2):
+                    for f in unlisted(c2):
+                        f['seed'] = c2.seed
+                        ctx.spec_failures.append(f)
+                    break
+            ctx.notes.append('extended failing-input search after a broken obligation: seeds %s' % tried)
         sys.exit(ctx.finish())
     elif a.cmd == 'replay':
         # re-run the check that produced the replay file with the same seed and tier, and report whether the recorded
